@@ -6,6 +6,7 @@ pub struct Counters {
     pub shift_unresolved_refused: u64,
     pub parse_calls: u64,
     pub order_check_calls: u64,
+    pub post_parse_calls: u64,
 }
 pub fn snapshot() -> Counters {
     Counters::default()
@@ -13,3 +14,4 @@ pub fn snapshot() -> Counters {
 pub fn reset() {}
 pub fn set_parse_calls_cap(_cap: u64) {}
 pub fn set_order_check_calls_cap(_cap: u64) {}
+pub fn set_post_parse_calls_cap(_cap: u64) {}
